@@ -10,6 +10,7 @@ from harness.extract import database as x_db
 from harness.extract import database_tr as x_tr
 from harness.extract import database_ftp_tr as x_ftp
 from harness.extract import database_client_tr as x_cli
+from harness.extract import database_tick_tr as x_tick
 from harness.rigs import database as rig
 
 MANIFEST = {
@@ -66,7 +67,7 @@ MANIFEST = {
     "design_ref": "5/C17",
 }
 MODULES = ["PrimaiteModel.Props.C17", "PrimaiteModel.Props.C17Gen", "PrimaiteModel.Props.C17Run", "PrimaiteModel.Props.C17Recv", "PrimaiteModel.Props.C17Ftp",
-           "PrimaiteModel.Props.C17Client", "PrimaiteModel.Lemmas.DatabaseReach"]
+           "PrimaiteModel.Props.C17Client", "PrimaiteModel.Props.C17Tick", "PrimaiteModel.Lemmas.DatabaseReach"]
 EXE = "drv_c17"
 
 
@@ -139,6 +140,9 @@ def run(ctx: Ctx):
         for fname, why in sorted(x_cli.FAILED.items()):
             ctx.oblige(f"translate-client:{fname}", "extractor", False, why)
         ctx.oblige("translate-client:all-10-functions", "extractor", not x_cli.FAILED, "; ".join(sorted(x_cli.FAILED)))
+        ctx.extract(x_tick.GEN_NAME, x_tick.emit)
+        for mname, lname, _ in x_tick.ROOTS:   # tick path + life-cycle methods (round 7): one obligation per root method
+            ctx.oblige(f"translate-tick:{mname}", "extractor", mname not in x_tick.FAILED, x_tick.FAILED.get(mname, ""))
         ctx.prove(MODULES, exes=[EXE], clean=False, leanchecker=ctx.thorough)
     ctx.cov["rule"] = ("case = (number of clients 1..4, session limit, passwords, durations, ransomware presence, op sequence over "
                        "connect / handle+raw+native query / disconnect / forged+foreign ids / execute / uninstall+install / "
